@@ -82,12 +82,30 @@ fn run_is_stuck(start_wall: Instant, start_cpu: f64) -> bool {
 /// Liveness watchdog (wall clock, only as a very generous bound): a run that does not
 /// return is reported by the worker itself, with its plan, and the process ends.
 fn start_watchdog(prop: String, replaying: bool) {
-    std::thread::spawn(move || loop {
+    std::thread::spawn(move || {
+        // a blocked call (every thread waiting, e.g. a self-deadlock on a lock) burns no CPU at all:
+        // less than one CPU second in a fifth of the limit of wall time inside one in-process search
+        // or count is reported without waiting for the wall-time backstop
+        let mut window: (Instant, f64) = (Instant::now(), cpu_seconds());
+        loop {
         std::thread::sleep(std::time::Duration::from_millis(500));
         let stuck = {
             let w = WATCH.lock().unwrap();
+            let now_cpu = cpu_seconds();
+            let blocked = match &*w {
+                Some((_, start, _, _)) if matches!(phase(), "search" | "perft") => {
+                    if now_cpu - window.1 > 1.0 || *start > window.0 {
+                        window = (Instant::now().max(*start), now_cpu);
+                    }
+                    window.0.elapsed() > hang_limit() / 5 && hang_limit().as_secs() > 0
+                }
+                _ => {
+                    window = (Instant::now(), now_cpu);
+                    false
+                }
+            };
             match &*w {
-                Some((plan, start, expect, cpu0)) if run_is_stuck(*start, *cpu0) => Some((plan.clone(), expect.clone())),
+                Some((plan, start, expect, cpu0)) if blocked || run_is_stuck(*start, *cpu0) => Some((plan.clone(), expect.clone())),
                 _ => None,
             }
         };
@@ -125,6 +143,7 @@ fn start_watchdog(prop: String, replaying: bool) {
             };
             println!("{}", serde_json::to_string(&sum).unwrap());
             std::process::exit(0);
+        }
         }
     });
 }
